@@ -1805,9 +1805,20 @@ impl SctpInner {
 
         for dc in channels_to_process {
             if dc.negotiated {
-                dc.state
-                    .store(DataChannelState::Open as usize, Ordering::SeqCst);
-                dc.send_event(DataChannelEvent::Open);
+                // Announce Open only when this call performs the transition: a
+                // duplicated COOKIE-ACK / COOKIE-ECHO must not re-announce it.
+                if dc
+                    .state
+                    .compare_exchange(
+                        DataChannelState::Connecting as usize,
+                        DataChannelState::Open as usize,
+                        Ordering::SeqCst,
+                        Ordering::SeqCst,
+                    )
+                    .is_ok()
+                {
+                    dc.send_event(DataChannelEvent::Open);
+                }
             } else {
                 let state = dc.state.load(Ordering::SeqCst);
                 if state == DataChannelState::Connecting as usize
@@ -2217,9 +2228,20 @@ impl SctpInner {
 
         for dc in channels_to_process {
             if dc.negotiated {
-                dc.state
-                    .store(DataChannelState::Open as usize, Ordering::SeqCst);
-                dc.send_event(DataChannelEvent::Open);
+                // Announce Open only when this call performs the transition: a
+                // duplicated COOKIE-ACK / COOKIE-ECHO must not re-announce it.
+                if dc
+                    .state
+                    .compare_exchange(
+                        DataChannelState::Connecting as usize,
+                        DataChannelState::Open as usize,
+                        Ordering::SeqCst,
+                        Ordering::SeqCst,
+                    )
+                    .is_ok()
+                {
+                    dc.send_event(DataChannelEvent::Open);
+                }
             } else {
                 let state = dc.state.load(Ordering::SeqCst);
                 if state == DataChannelState::Connecting as usize
